@@ -4,6 +4,7 @@ EXTENDS Mock
 I1 == MkInt("int", P(0, 0, 0, 1))
 I2 == MkInt("int", P(0, 0, 0, 2))
 L1 == MkInt("long int", P(0, 0, 0, 1))
+Vals1 == {I1}
 Vals2 == {I1, I2}
 Vals3 == {I1, I2, L1}            \* L1 equals I1 by value: two spellings of one parameter value
 Rets1 == {I1}
@@ -26,6 +27,12 @@ Ob(tn, a, b) == [t |-> "obj", tn |-> tn, c |-> <<a, b>>]
 ValsObj1 == {Ob("intPair", 1, 1), Ob("intPair", 1, 2), Ob("intPair", 2, 1)}
 ValsObjQ == {Ob("intPair", 1, 1), Ob("intPair", 1, 2)}
 ValsObj2 == ValsObj1 \cup {Ob("boolean_flag", 1, 1), Ob("boolean_flag", 1, 2)}
+\* objects with an identity: each content in an object of its own (id 0) and in a shared object (id 1) - an expectation and an
+\* actual call may name the very same object, the same content in two objects, or different contents
+ObI(tn, a, b, i) == [t |-> "obj", tn |-> tn, c |-> <<a, b>>, id |-> i]
+ValsObjId == { ObI("intPair", c[1], c[2], i) : c \in {<<1, 1>>, <<1, 2>>, <<2, 1>>}, i \in {0, 1} }
+ValsObjIdQ == { ObI("intPair", c[1], c[2], i) : c \in {<<1, 1>>, <<2, 1>>}, i \in {0, 1} }
+CmpPlain == {"whole", "first"}
 ValsMixed == {I1, Ob("intPair", 1, 1), Ob("intPair", 1, 2)}
 Typed1 == {[ty |-> "intPair", data |-> <<42, 0, 0, 1>>]}
 Typed2 == {[ty |-> "doubleBox", data |-> <<42, 0, 255, 1>>], [ty |-> "doubleBox", data |-> <<7, 8, 9, 10>>]}
